@@ -59,6 +59,9 @@ func (backRR *BackendRR) Init(subClusterName string, conf *cluster_table_conf.Ba
 
 func (backRR *BackendRR) UpdateWeight(weight int) {
 	backRR.weight = weight * 100
+	// keep the slow-start target in sync with the configured weight: a slow-start
+	// phase that is running (or starts later) must ramp to the new weight
+	backRR.weightSS.final = backRR.weight
 
 	// if weight > 0, don't touch backRR.current
 	if weight <= 0 {
